@@ -120,6 +120,8 @@ def install(it, lines, tables, dialect=None, existing_db=False, path="/ghost/in.
     def unlink(interp, a, k):
         Ctx.current.effect("unlink", a[0])
         exists[a[0]] = False
+        if a[0] == dbfn and conns:
+            conns[0].tables_exist = False        # the tables live in the file: an unlinked file is a fresh, empty database
     it.contracts[os.path.exists] = path_exists
     it.contracts[os.unlink] = unlink
     it.contracts[os.path.expanduser] = lambda interp, a, k: a[0]
@@ -158,6 +160,7 @@ def install(it, lines, tables, dialect=None, existing_db=False, path="/ghost/in.
             c = ghostdb.GhostConn(result_for=result_for, on_execute=on_execute)
             c.tables_exist = bool(exists.get(a[0], False)) and existing_db    # an unlinked file is a fresh, empty database
             conns.append(c)
+        exists[a[0]] = True                      # sqlite3.connect creates the file
         return conns[0]
     it.contracts[sqlite3.connect] = connect
     return {"fs": fs, "opened": opened, "made": made, "conns": conns, "exists": exists}
@@ -208,7 +211,18 @@ def same_strings(got, want_vars):
 
 
 def native_directives_replay(kinds, checklines):
-    """replay: a real file with the same line kinds through the real create_db"""
+    """replay: a real file with the same line kinds through the real create_db; tried with pairwise distinct
+    directive texts and with every directive line doubled (equal texts on several lines, like the '###' marker)"""
+    last = None
+    for doubled in (False, True):
+        ks = "".join((k + k) if (k == "D" and doubled) else k for k in kinds)
+        last = _native_directives_replay(ks, checklines, same_text=doubled)
+        if last.get("violates"):
+            return last
+    return _native_directives_replay(kinds, checklines) if last is None else last
+
+
+def _native_directives_replay(kinds, checklines, same_text=False):
     import tempfile
     lines, exp = [], []
     stopped = False
@@ -218,9 +232,12 @@ def native_directives_replay(kinds, checklines):
             lines.append("chr1\t.\tgene\t%d\t%d\t.\t+\t.\tID=f%d" % (10 * i + 1, 10 * i + 5, i))
             nfeat += 0 if stopped else 1
         elif k == "D":
-            lines.append("##directive %d" % i)
+            txt = "directive %d" % ((i // 2 * 2 - (1 if kinds[:i].count("D") % 2 else 0)) if same_text else i)
+            if same_text:
+                txt = "directive %d" % (kinds[:i].count("D") // 2)
+            lines.append("##" + txt)
             if not stopped:
-                exp.append("directive %d" % i)
+                exp.append(txt)
         elif k == "C":
             lines.append("#comment %d" % i)
         elif k == "B":
